@@ -198,8 +198,12 @@ pub fn run_frag(c: &FCfg, ops: &[FOp]) -> FRun {
                 Ok(Ok(())) => FRes::WriteOk,
                 Ok(Err(e)) => {
                     let display = guarded(|| format!("{} / {:?}", e, e)).unwrap_or_else(|p| format!("<fmt panicked {}>", p));
-                    let FragmentedError::NonMonotonicDts { prev_dts, curr_dts } = e;
-                    FRes::WriteErr { prev: prev_dts, curr: curr_dts, display }
+                    // tolerant of error variants added later (the harness must keep compiling against a changed tree)
+                    #[allow(unreachable_patterns)]
+                    match e {
+                        FragmentedError::NonMonotonicDts { prev_dts, curr_dts } => FRes::WriteErr { prev: prev_dts, curr: curr_dts, display },
+                        _ => FRes::WriteErr { prev: u64::MAX, curr: u64::MAX, display },
+                    }
                 }
                 Err(p) => FRes::Panic(p),
             },
